@@ -157,8 +157,12 @@ def o84(ctx):
     df = me.attrs["df"]
     t = df.cols["subtomo_id"]
     ctx.count(1, {"renumber_particles": tm.show(t)})
-    ok = t.op == "call" and t.args[0] == "range" and tm.cval(t.args[1]) == 1 and len(t.args) == 3 and t.args[2].op == "add" \
-        and tm.cval(t.args[2].args[1]) == 1 and t.args[2].args[0].op == "call" and t.args[2].args[0].args[0] in ("nrows", "len")
+    ok = t.op == "call" and t.args[0] == "range" and tm.cval(t.args[1]) == 1 and len(t.args) == 3
+    if ok:
+        # the stop of the range is N + 1 (however it is spelled: N + 1, 1 + N, start + N with start = 1)
+        sizes = [n for n in tm.walk(t.args[2]) if n.op == "call" and n.args[0] in ("nrows", "len")]
+        ok = len(sizes) == 1 and bool(tm.equivalent(tm.subst(t.args[2], {sizes[0]: sym("N")}), mk("add", sym("N"), const(1)),
+                                                     samplers={"N": int_sampler(0, 200)}, seed_tag="renumN"))
     if not ok or df.written != {"subtomo_id"}:
         ctx.finding(q, last_store(it, df, "subtomo_id") or fn, "renumber_particles must write subtomogram numbers 1..N and nothing else",
                     last_store(it, df, "subtomo_id") or fn, m, extracted=tm.show(t)[:100], written=sorted(df.written))
